@@ -15,8 +15,8 @@ from decimal import Decimal
 PROP = "C18"
 HEADER = ("Require Import Codec CodecChk Gen_Css. From Coq Require Import List ZArith NArith Bool. Import ListNotations.\n"
           "Open Scope N_scope.\nDefinition chk := chk18 css3_colormap.\n")
-LAYER = {1: "round-trip: decode(encode(x)) is not x (or the decoded value is wrong)",
-         2: "lexical: the encoded string is outside the ODF lexical form of its datatype",
+LAYER = {1: "round-trip: decode(encode(x)) is not x, or a decoder returns a wrong value for a string of the lexical form",
+         2: "lexical: an encoded string, or a string accepted by a decoder, is outside the ODF lexical form of its datatype",
          3: "encoder: the implementation's encoder output differs from the model's",
          4: "decoder: the implementation's decoder differs from the model's (accepts a string outside the lexical form, "
             "rejects one inside it, or returns another value)"}
@@ -286,7 +286,7 @@ def gen_inputs(tier, rng, css):
         s = rng.choice([rng.randint(-10 ** 5, 10 ** 5), rng.randint(-10 ** 9, 10 ** 9), rng.randint(-86400 * 365 * 200, 86400 * 365 * 200),
                         rng.randint(TD_MIN_US // 10 ** 6, TD_MAX_US // 10 ** 6)])
         add("dur", s * 10 ** 6)
-    # sub-second values (outside the whole-second domain: only encoder / decoder correspondence is checked), below the float bound
+    # sub-second values, below the bound under which the float division of Duration.encode is exact for any microsecond count
     for _ in range(150 if q else 8000):
         s = rng.choice([0, 1, 59, 3599, 3600, 86399, rng.randint(0, 10 ** 6), rng.randint(0, FLOAT_SAFE_US // 10 ** 6 - 1)])
         u = s * 10 ** 6 + rng.choice([1, 499999, 500000, 999999, rng.randint(1, 999999)])
@@ -450,7 +450,7 @@ def run(tier, seed, replay=None):
     if n_len:
         print("NOTE: %d strings outside xsd:date/dateTime are accepted by datetime.fromisoformat with their ISO 8601 reading (not an alarm)" % n_len)
     return common.finish(PROP, tier, seed, proofs, coverage, violations, known_seen, t0,
-                         assumptions=["durations: whole seconds (sub-second values are truncated by Duration.encode; they are compared with the model but not required to round-trip)",
+                         assumptions=["durations with a sub-second part are generated below 2^21 hours only (bound of dur_float_exact_us); whole-second durations over the whole timedelta range",
                                       "time-zone offsets in whole seconds", "colour names and white space: ASCII",
                                       "strings outside xsd:date/dateTime that datetime.fromisoformat accepts with their ISO 8601 reading are counted, not alarmed"])
 
